@@ -269,6 +269,8 @@ func main() {
 		cmdLin(os.Args[2:])
 	case "srcfacts":
 		cmdSrcFacts(os.Args[2:])
+	case "pure":
+		cmdPure(os.Args[2:])
 	case "sched":
 		cmdSched(os.Args[2:])
 	case "pool":
